@@ -22,7 +22,7 @@ theorem init_ok (P : Params K) (tree : Tree K V) (progs : List (List (COp K V)))
   intro th hth
   simp only [Config.init, List.mem_map] at hth
   obtain ⟨p, _, rfl⟩ := hth
-  exact ⟨by simp [parkHeld, cursorLocks], trivial⟩
+  exact ⟨by simp [parkHeld, cursorLocks], trivial, trivial⟩
 
 theorem step_ok (c c' : Config K V) (t : Nat) (hs : c.step t = some c') (hok : ConfigOk c)
     (hd : c'.dead = false) : ConfigOk c' := by
